@@ -202,16 +202,50 @@ pub fn run(ctx: &Ctx, rep: &mut Report) {
         }
     }
     // far beyond any AIS message, but the statement is "for every string": lengths around the
-    // points where 16-bit bit/byte counters would wrap
+    // points where 16-bit bit / byte / character-group counters would wrap (2^16 .. 2^23 bits,
+    // 2^16 bytes, 2^16 groups of four characters) and powers of two of the character count
     if !mon::is_noalloc() {
         let mut idx2 = 0u64;
-        for len in [5461usize, 5462, 8191, 8192, 10_922, 10_923, 10_924, 16_384, 21_845, 21_846, 43_690, 43_691, 65_535, 65_536, 65_537, 87_382] {
+        let mut lens: Vec<usize> = vec![5461, 5462, 8191, 8192, 10_922, 10_923, 10_924, 16_384, 21_845, 21_846, 43_690, 43_691, 65_535, 65_536, 65_537, 87_381, 87_382, 87_383];
+        lens.extend_from_slice(&[131_072, 174_762, 174_763, 262_143, 262_144, 262_145, 262_148, 349_525, 349_526, 524_288, 524_289]);
+        if ctx.thorough() {
+            lens.extend_from_slice(&[699_050, 699_051, 1_048_576, 1_048_577, 1_398_101, 1_398_102, 2_796_203]);
+        }
+        for len in lens {
             for fill in 0..6 {
                 if ctx.mine(idx2) {
                     let s: Vec<u8> = (0..len).map(|_| *r.pick(armor::ALPHABET)).collect();
                     check(rep, &s, fill, "huge-random");
-                    let ones = vec![b'w'; len];
-                    check(rep, &ones, fill, "huge-ones");
+                    if len < 100_000 || fill % 3 == 0 {
+                        let ones = vec![b'w'; len];
+                        check(rep, &ones, fill, "huge-ones");
+                    }
+                    // a single '1' bit pattern at the very end of a field of zeros: anything that
+                    // wraps around writes it to the front
+                    let mut z = vec![b'0'; len];
+                    z[len - 1] = b'w';
+                    check(rep, &z, 0, "huge-last-w");
+                }
+                idx2 += 1;
+            }
+        }
+        // one byte outside the alphabet in an otherwise valid long string, at the first / an early /
+        // every power-of-two (+-1) / the last position: block-wise implementations must not lose it
+        for len in [4095usize, 4096, 4097, 8193, 12_289, 20_000, 70_000] {
+            let mut positions: Vec<usize> = vec![0, 1, len / 2, len - 2, len - 1];
+            let mut p2 = 64usize;
+            while p2 < len {
+                positions.extend_from_slice(&[p2 - 1, p2]);
+                if p2 + 1 < len {
+                    positions.push(p2 + 1);
+                }
+                p2 *= 2;
+            }
+            for pos in positions {
+                if ctx.mine(idx2) {
+                    let mut s: Vec<u8> = (0..len).map(|_| *r.pick(armor::ALPHABET)).collect();
+                    s[pos] = *r.pick(&EDGE_INVALID);
+                    check(rep, &s, r.below(6) as usize, "huge-one-invalid");
                 }
                 idx2 += 1;
             }
